@@ -72,6 +72,10 @@ def run_all(ctx, focus):
     summaries["seq"] = vlib.xv("chunkcache", mode="seq", n=40 * k, ops=80, seed=ctx.seed, keys=2, nch=4, capx=2, out=t, **({"junk": 1} if focus == "hits" else {}))
     validate(ctx, t, "seq")
     ctx.sample({"recorded_trace_prefix": summaries["seq"]["sample"]})
+    # capacity exactly the length of the largest item of the first key (an item as large as the capacity is allowed)
+    t = os.path.join(w, "seq_exact.ndjson")
+    summaries["seq_exact"] = vlib.xv("chunkcache", mode="seq", n=20 * k, ops=50, seed=ctx.seed + 2, keys=2, nch=3, capexact=1, out=t)
+    validate(ctx, t, "seq-exact")
     if focus == "hits":
         # capacity below the size of the larger items: put accepts them, the scan of a re-open skips them (files that
         # exist but are not tracked), then refill and read
